@@ -194,6 +194,8 @@ var worldSeq atomic.Int64
 // world = one runtime + one guest instance + one private host tree (or MapFS) for one mount kind.
 type world struct {
 	kind     int
+	prov     int    // configuration provenance (pDirect ...)
+	sibDir   string // MapFS + provenance: host directory the discarded writable siblings point at
 	cross    bool   // a writable WithDirMount(rwDir, "/rw") is preopened first (fd 3); the immutable mount is fd 4
 	rwDir    string
 	pre      uint64 // descriptor of the immutable mount's root
@@ -216,8 +218,39 @@ type world struct {
 
 var bg = context.Background()
 
-func newWorld(kind int, tmpRoot string, cross bool) *world {
-	w := &world{kind: kind, tmpRoot: tmpRoot, cross: cross, pre: preFD}
+// Configuration provenance: several ways of building the SAME mount configuration that must be
+// equivalent. The siblings are derived and thrown away; they are never instantiated.
+const (
+	pDirect            = iota // NewFSConfig().WithX(dir, "/")
+	pSiblingAfter             // ro := ...WithX(dir,"/"); then writable siblings are derived from ro and discarded
+	pSiblingSecondPath        // same with a second guest path: "/rw" writable first, immutable mount at "/ro" (fd 4)
+	pReplacedBase             // base has a WRITABLE mount at the guest path, WithX replaces it; more siblings derived from base afterwards
+	pModuleSibling            // mc := NewModuleConfig().WithFSConfig(ro); writable siblings derived from mc and discarded
+	nProvs
+)
+
+var provNames = [nProvs]string{"direct", "sibling-after", "sibling-second-path", "replaced-base", "moduleconfig-sibling"}
+
+func provByName(n string) int {
+	for i, k := range provNames {
+		if k == n || (n == "" && i == 0) {
+			return i
+		}
+	}
+	fw.Fatalf("unknown provenance %q", n)
+	return 0
+}
+
+func newWorld(kind int, tmpRoot string, cross bool, prov int) *world {
+	if prov == pSiblingSecondPath {
+		cross = true
+	}
+	w := &world{kind: kind, tmpRoot: tmpRoot, cross: cross, pre: preFD, prov: prov}
+	if prov != pDirect && kind == kMapFS {
+		// the writable siblings of a MapFS mount point at this (empty) host directory; it is part of the snapshot
+		w.sibDir = filepath.Join(tmpRoot, fmt.Sprintf("sib%d", worldSeq.Add(1)))
+		must(os.Mkdir(w.sibDir, 0o755))
+	}
 	if cross {
 		w.pre = preFD + 1
 		w.rwDir = filepath.Join(tmpRoot, fmt.Sprintf("rw%d", worldSeq.Add(1)))
@@ -253,6 +286,10 @@ func (w *world) freshTree() {
 	if w.cross {
 		w.resetRW()
 	}
+	if w.sibDir != "" { // a guest that wrongly got hold of it may even have removed it
+		must(os.RemoveAll(w.sibDir))
+		must(os.Mkdir(w.sibDir, 0o755))
+	}
 	w.instantiate()
 	w.baseline = w.snapshot()
 	if w.kind != kMapFS {
@@ -279,25 +316,70 @@ func (w *world) resetRW() {
 	must(os.Mkdir(filepath.Join(w.rwDir, "wd"), 0o755))
 }
 
+// immutable adds the mount under test to fc at the guest path.
+func (w *world) immutable(fc wazero.FSConfig, guest string) wazero.FSConfig {
+	switch w.kind {
+	case kRODir:
+		return fc.WithReadOnlyDirMount(filepath.Join(w.base, "mnt"), guest)
+	case kDirFS:
+		return fc.WithFSMount(os.DirFS(filepath.Join(w.base, "mnt")), guest)
+	}
+	return fc.WithFSMount(w.mapfs, guest)
+}
+
+// writableDir: what a writable sibling configuration mounts — the SAME host directory for the host kinds.
+func (w *world) writableDir() string {
+	if w.kind == kMapFS {
+		return w.sibDir
+	}
+	return filepath.Join(w.base, "mnt")
+}
+
+// moduleConfig builds the configuration the guest is instantiated with, along the world's provenance.
+func (w *world) moduleConfig() wazero.ModuleConfig {
+	base := wazero.NewFSConfig()
+	guest := "/"
+	if w.cross {
+		base = base.WithDirMount(w.rwDir, "/rw")
+		guest = "/ro"
+	}
+	mc := wazero.NewModuleConfig().WithName("")
+	switch w.prov {
+	case pDirect:
+		return mc.WithFSConfig(w.immutable(base, guest))
+	case pSiblingAfter, pSiblingSecondPath:
+		ro := w.immutable(base, guest)
+		wd := w.writableDir()
+		_ = ro.WithDirMount(wd, guest)
+		_ = ro.WithDirMount(wd, guest+"/")
+		_ = ro.WithDirMount(wd, "/third")
+		_ = ro.WithDirMount(wd, "/third").WithDirMount(wd, guest)
+		return mc.WithFSConfig(ro)
+	case pReplacedBase:
+		wd := w.writableDir()
+		b2 := base.WithDirMount(wd, guest)
+		ro := w.immutable(b2, guest)
+		_ = b2.WithDirMount(wd, guest)
+		_ = b2.WithDirMount(wd, "/third")
+		return mc.WithFSConfig(ro)
+	case pModuleSibling:
+		wd := w.writableDir()
+		ro := w.immutable(base, guest)
+		m2 := mc.WithFSConfig(ro)
+		_ = m2.WithFSConfig(base.WithDirMount(wd, guest))
+		_ = m2.WithFSConfig(ro.WithDirMount(wd, guest))
+		_ = m2.WithFS(os.DirFS(wd))
+		return m2
+	}
+	fw.Fatalf("unknown provenance %d", w.prov)
+	return nil
+}
+
 func (w *world) instantiate() {
 	if w.mod != nil {
 		w.mod.Close(bg)
 	}
-	fc := wazero.NewFSConfig()
-	guest := "/"
-	if w.cross {
-		fc = fc.WithDirMount(w.rwDir, "/rw")
-		guest = "/ro"
-	}
-	switch w.kind {
-	case kRODir:
-		fc = fc.WithReadOnlyDirMount(filepath.Join(w.base, "mnt"), guest)
-	case kDirFS:
-		fc = fc.WithFSMount(os.DirFS(filepath.Join(w.base, "mnt")), guest)
-	case kMapFS:
-		fc = fc.WithFSMount(w.mapfs, guest)
-	}
-	mod, err := w.rt.InstantiateModule(bg, w.code, wazero.NewModuleConfig().WithName("").WithFSConfig(fc))
+	mod, err := w.rt.InstantiateModule(bg, w.code, w.moduleConfig())
 	if err != nil {
 		fw.Fatalf("instantiate guest: %v", err)
 	}
@@ -325,6 +407,9 @@ func (w *world) close() {
 	}
 	if w.rwDir != "" {
 		os.RemoveAll(w.rwDir)
+	}
+	if w.sibDir != "" {
+		os.RemoveAll(w.sibDir)
 	}
 }
 
